@@ -465,6 +465,11 @@ pub struct Exec {
     /// highest clock value the store has seen (ids are drawn from scru128's generator, which
     /// restarts below earlier ids once the clock is more than 10 s behind its last timestamp)
     pub clock_high: u64,
+    /// C05 is about the lookups agreeing with one another: at a settle point the store-vs-store
+    /// comparison is evaluated before any model verdict is returned
+    pub agree_first: bool,
+    settles: u32,
+    deferred: Option<crate::world::Violation>,
     pub crashed_pairs: HashSet<(Scru128Id, String)>,
     pub plan_follower: bool,
     /// every accepted append in order (stored and ephemeral), for stream followers of other engines
@@ -495,6 +500,9 @@ impl Exec {
             follower_expect: Vec::new(),
             flushed: false,
             clock_high: 0,
+            agree_first: false,
+            settles: 0,
+            deferred: None,
             crashed_pairs: HashSet::new(),
             plan_follower: follower,
             accepted_log: Vec::new(),
@@ -613,7 +621,15 @@ impl Exec {
     pub fn run_plan(&mut self, plan: &Plan) -> R<()> {
         for (i, op) in plan.ops.iter().enumerate() {
             self.w.log(format!("op{} {:?}", i, op));
-            self.apply(i, op)?;
+            match self.apply(i, op) {
+                Err(Stop::Violation(v)) if self.agree_first && self.deferred.is_none() && !v.class.starts_with("agree/") && !v.class.starts_with("head/") => {
+                    // the model found a discrepancy; C05 asks whether the lookups still agree
+                    // with one another, so compare them before giving up on the run
+                    self.deferred = Some(v);
+                    return self.settle(&format!("op{} (after a model discrepancy)", i));
+                }
+                r => r?,
+            }
         }
         Ok(())
     }
@@ -1168,14 +1184,40 @@ impl Exec {
         Ok(())
     }
 
+    fn defer(&mut self, r: R<()>) -> R<()> {
+        match r {
+            Err(Stop::Violation(v)) if self.agree_first => {
+                self.deferred.get_or_insert(v);
+                Ok(())
+            }
+            r => r,
+        }
+    }
+
     pub fn settle(&mut self, what: &str) -> R<()> {
         self.w.probe("settle");
         self.drain_follower(what)?;
+        // every other settle point starts with a physical sweep: drain the collector with
+        // whatever the earlier reads queued (a full scan below would queue everything again and
+        // hide a lost removal), then look every issued id up
+        self.settles += 1;
+        if self.settles % 2 == 0 {
+            self.gc_drain()?;
+            let issued = self.issued.clone();
+            for id in &issued {
+                let got = self.store().get(id);
+                let mr = self.model.check_get(&format!("{} settle/sweep", what), id, got.as_ref());
+                self.defer(mr)?;
+            }
+            self.w.probe("settle:sweep");
+        }
         let all: Vec<Frame> = self.store().read_sync(None, None, None).collect();
-        self.model.check_read(&format!("{} settle/all-1", what), None, None, None, &all, None)?;
+        let r = self.model.check_read(&format!("{} settle/all-1", what), None, None, None, &all, None);
+        self.defer(r)?;
         self.gc_drain()?;
         let all: Vec<Frame> = self.store().read_sync(None, None, None).collect();
-        self.model.check_read(&format!("{} settle/all", what), None, None, None, &all, None)?;
+        let r = self.model.check_read(&format!("{} settle/all", what), None, None, None, &all, None);
+        self.defer(r)?;
         let all_ids: HashSet<Scru128Id> = all.iter().map(|f| f.id).collect();
         let mut ctxs = self.model.contexts_seen();
         for c in self.reg.clone() {
@@ -1186,7 +1228,8 @@ impl Exec {
         let mut per_ctx: HashMap<Scru128Id, Vec<Frame>> = HashMap::new();
         for c in &ctxs {
             let r: Vec<Frame> = self.store().read_sync(None, None, Some(*c)).collect();
-            self.model.check_read(&format!("{} settle/ctx {}", what, short_ctx(c)), Some(*c), None, None, &r, None)?;
+            let mr = self.model.check_read(&format!("{} settle/ctx {}", what, short_ctx(c)), Some(*c), None, None, &r, None);
+            self.defer(mr)?;
             for f in &r {
                 if f.context_id != *c {
                     return violation("ctx/leak:read_sync", format!("{}: read_sync(ctx {}) returned {}", what, short_ctx(c), fmt_frame(f)));
@@ -1198,7 +1241,8 @@ impl Exec {
         let issued = self.issued.clone();
         for id in &issued {
             let got = self.store().get(id);
-            self.model.check_get(&format!("{} settle/get", what), id, got.as_ref())?;
+            let mr = self.model.check_get(&format!("{} settle/get", what), id, got.as_ref());
+            self.defer(mr)?;
             let in_all = all_ids.contains(id);
             if got.is_some() != in_all {
                 return violation(
@@ -1248,8 +1292,12 @@ impl Exec {
                         ),
                     );
                 }
-                self.model.check_head(&format!("{} settle/head", what), t, c, got.as_ref())?;
+                let mr = self.model.check_head(&format!("{} settle/head", what), t, c, got.as_ref());
+                self.defer(mr)?;
             }
+        }
+        if let Some(v) = self.deferred.take() {
+            return Err(Stop::Violation(v));
         }
         // head:N clause after the collector drained
         let mut groups: BTreeMap<(Scru128Id, String), Vec<&Frame>> = BTreeMap::new();
@@ -1404,6 +1452,7 @@ pub fn exec_value(plan: &serde_json::Value, tag: &str) -> crate::props::RunResul
         Err(Stop::Harness(h)) => return RunResult { violation: None, harness: Some(h), probes: BTreeMap::new(), decisions: 0, sim_ms: 0, trace: vec![], choices: vec![], plan_patch: None },
         Err(Stop::Violation(v)) => return RunResult { violation: Some(v), harness: None, probes: BTreeMap::new(), decisions: 0, sim_ms: 0, trace: vec![], choices: vec![], plan_patch: None },
     };
+    ex.agree_first = plan.prop == "C05";
     let res = std::panic::catch_unwind(std::panic::AssertUnwindSafe(|| ex.run_plan(&plan)));
     let (violation, harness) = match res {
         Ok(Ok(())) => (None, None),
